@@ -36,6 +36,10 @@ enum Fault {
     ResetInStallOutB,
     DropMuxA,
     DropMuxB,
+    /// (two-fault cases only) a bare WebSocket Close frame appears on the named PEER's direction, at byte level, as if the
+    /// peer's WebSocket stack (or a proxy in front of it) had closed the WebSocket; the peer's endpoint itself lives on
+    BareCloseA,
+    BareCloseB,
 }
 use Fault::*;
 const FAULTS: [Fault; 14] = [EofA2B, EofB2A, ResetA2B, ResetB2A, StallA2B, StallB2A, EofBoth, ResetBoth, EofInStallOutA, EofInStallOutB, ResetInStallOutA, ResetInStallOutB, DropMuxA, DropMuxB];
@@ -57,6 +61,8 @@ const W_CLOSE_HANDSHAKE: u64 = 1024;
 /// an execution in which an endpoint was never told anything (merely stalled): not judged
 const W_UNJUDGED_ENDPOINT: u64 = 2048;
 const W_PIPE_BACKPRESSURE: u64 = 4096;
+/// the peer's Close was read by an endpoint whose send side was ALREADY stuck on a stalled, full pipe; `<< 1` for endpoint B
+const W_CLOSE_WHILE_OUT_STUCK: u64 = 32768;
 
 #[derive(Clone, Copy, Debug)]
 struct Cfg {
@@ -65,6 +71,44 @@ struct Cfg {
     /// the fault that may be injected (once) at any point. One case per fault: the cases are independent, so the runner
     /// gives each its own thread instead of sharing one work queue
     fault: Fault,
+    /// two causes in one execution: `fault` is an orderly end of the connection by the PEER (it drops its Multiplexor, or a
+    /// bare Close frame) and, at any point before or after it, the outbound direction of the endpoint that RECEIVES the
+    /// Close stalls
+    double: bool,
+}
+
+/// The peer that ends the connection in a two-fault case (the other endpoint receives the Close).
+fn peer_of(f: Fault) -> usize {
+    usize::from(!matches!(f, DropMuxA | BareCloseA))
+}
+
+/// WebSocket frames in the bytes written on a direction: (end offset of the first Close frame, the bytes end at a frame
+/// boundary). Only headers are looked at (the client role's payloads are masked).
+fn scan_frames(log: &[u8]) -> (Option<usize>, bool) {
+    let (mut i, mut close) = (0usize, None);
+    loop {
+        if i == log.len() {
+            return (close, true);
+        }
+        if i + 2 > log.len() {
+            return (close, false);
+        }
+        let (op, masked, l7) = (log[i] & 0x0f, log[i + 1] & 0x80 != 0, usize::from(log[i + 1] & 0x7f));
+        let (hdr, len) = match l7 {
+            126 if i + 4 <= log.len() => (4, usize::from(u16::from_be_bytes([log[i + 2], log[i + 3]]))),
+            127 if i + 10 <= log.len() => (10, u64::from_be_bytes(log[i + 2..i + 10].try_into().unwrap()) as usize),
+            126 | 127 => return (close, false),
+            n => (2, n),
+        };
+        let total = hdr + if masked { 4 } else { 0 } + len;
+        if i + total > log.len() {
+            return (close, false);
+        }
+        i += total;
+        if op == 8 && close.is_none() {
+            close = Some(i);
+        }
+    }
 }
 
 fn build(cfg: &Cfg) -> World {
@@ -130,6 +174,9 @@ fn apply_fault(w: &mut World, p: &BytePipe, f: Fault) {
         }
         DropMuxA => w.drop_mux(0),
         DropMuxB => w.drop_mux(1),
+        // (a client's frames are masked: zero key, empty payload)
+        BareCloseA => drop(p.inject(0, &[0x88, 0x80, 0, 0, 0, 0])),
+        BareCloseB => drop(p.inject(1, &[0x88, 0x00])),
     }
 }
 
@@ -171,7 +218,14 @@ fn exec(cfg: &Cfg, render: bool) -> RunOutput {
     let mut wit = 0u64;
     let mut fault: Option<Fault> = None;
     let mut horizon = false;
-    let fault_kinds = [Cost::Fault];
+    // two-fault cases: the endpoint that receives the Close, whose outbound direction is the one that stalls
+    let xside = 1 - peer_of(cfg.fault);
+    let mut second = false;
+    let mut stall_first = false;
+    // close_end[d]: where the first Close frame on direction d ends; close_rx[x]: endpoint x has taken it in
+    let mut close_end: [Option<u64>; 2] = [None; 2];
+    let mut close_rx = [false; 2];
+    let mut prev_stuck = [false; 2];
     loop {
         if w.sim.steps >= 6000 {
             horizon = true;
@@ -180,13 +234,28 @@ fn exec(cfg: &Cfg, render: bool) -> RunOutput {
         let en = w.sim.enabled();
         // alternatives: enabled steps (or "stay quiescent"), then the faults while none was injected
         let mut kinds: Vec<Cost> = vec![Cost::Sched; en.len().max(1)];
-        if fault.is_none() {
-            kinds.extend_from_slice(&fault_kinds);
-        } else if en.is_empty() {
+        // (a bare Close frame can only appear between two frames of the peer, and while the peer's sending side is open)
+        let offer1 = fault.is_none()
+            && (!matches!(cfg.fault, BareCloseA | BareCloseB) || {
+                let l = pipe.lock();
+                let d = &l.dirs[1 - xside];
+                !d.wr_closed && !d.reset && scan_frames(&d.wlog).1
+            });
+        let offer2 = cfg.double && !second;
+        if !offer1 && !offer2 && en.is_empty() {
             break;
         }
+        kinds.extend(std::iter::repeat_n(Cost::Fault, usize::from(offer1) + usize::from(offer2)));
         let c = choose(&kinds);
         let nsched = en.len().max(1);
+        if c >= nsched && !(offer1 && c == nsched) {
+            // the second cause: the receiving endpoint's outbound direction goes silent
+            pipe.stall(xside);
+            second = true;
+            stall_first = fault.is_none();
+            w.sim.log.push(Step::Extra(1));
+            continue;
+        }
         if c >= nsched {
             let f = cfg.fault;
             // what was pending at the moment of the fault (vacuity witnesses)
@@ -211,7 +280,7 @@ fn exec(cfg: &Cfg, render: bool) -> RunOutput {
             apply_fault(&mut w, &pipe, f);
             fault = Some(f);
             wit |= W_FAULT_TAKEN;
-            w.sim.log.push(Step::Extra(c - nsched));
+            w.sim.log.push(Step::Extra(0));
             continue;
         }
         if en.is_empty() {
@@ -220,6 +289,22 @@ fn exec(cfg: &Cfg, render: bool) -> RunOutput {
         }
         let step = en[c].clone();
         w.sim.apply(&step);
+        if cfg.double {
+            let l = pipe.lock();
+            for x in 0..2 {
+                let d = 1 - x;
+                if close_end[d].is_none() {
+                    close_end[d] = scan_frames(&l.dirs[d].wlog).0.map(|e| e as u64);
+                }
+                if !close_rx[x] && close_end[d].is_some_and(|e| l.dirs[d].consumed >= e) {
+                    close_rx[x] = true;
+                    if prev_stuck[x] {
+                        wit |= W_CLOSE_WHILE_OUT_STUCK << x;
+                    }
+                }
+            }
+            prev_stuck = [l.dirs[0].stuck, l.dirs[1].stuck];
+        }
         // fingerprint: application ledger, flow tables, what the pipes hold (lengths only: the client role masks its
         // frames with random keys, byte VALUES on the pipe are not owned and not observed), task states
         let mut h = Fnv::default();
@@ -254,6 +339,9 @@ fn exec(cfg: &Cfg, render: bool) -> RunOutput {
             h.byte(u8::from(l.told_rd[0]) | u8::from(l.told_rd[1]) << 1 | u8::from(l.told_wr[0]) << 2 | u8::from(l.told_wr[1]) << 3);
         }
         h.byte(fault.map_or(0xff, |f| f as u8));
+        if cfg.double {
+            h.byte(u8::from(second) | u8::from(close_rx[0]) << 1 | u8::from(close_rx[1]) << 2);
+        }
         for (i, t) in w.sim.tasks.iter().enumerate() {
             h.byte(u8::from(t.done) | u8::from(w.sim.is_runnable(i)) << 1);
         }
@@ -279,13 +367,24 @@ fn exec(cfg: &Cfg, render: bool) -> RunOutput {
         }
     }
     let mut judged = [false; 2];
-    if let Some(f) = fault {
+    if fault.is_some() || second {
+        let stall = if xside == 0 { StallA2B } else { StallB2A };
+        let f = match (fault, second) {
+            (Some(f), false) => format!("{f:?}"),
+            (Some(f), true) if stall_first => format!("{stall:?} and then {f:?}"),
+            (Some(f), true) => format!("{f:?} and then {stall:?}"),
+            (None, _) => format!("{stall:?}"),
+        };
+        let local_drop = matches!(fault, Some(DropMuxA | DropMuxB));
         let l = pipe.lock();
         for x in 0..2 {
             // a local drop over a healthy transport is announced to the peer (Close); a transport fault only concerns
             // the endpoints that were TOLD about it: a read that returned end of file or an error, a failed write / flush.
             // An endpoint that merely hears nothing any more from a silent peer is not judged
-            judged[x] = matches!(f, DropMuxA | DropMuxB) || l.told_rd[x] || l.told_wr[x];
+            // Two-fault cases: the transport is NOT healthy, so the endpoint that dropped its Multiplexor may wait for an
+            // answer that is lost without anybody being told: there only an endpoint that has read the peer's Close frame
+            // (or was told by the transport) is judged
+            judged[x] = if cfg.double { close_rx[x] || l.told_rd[x] || l.told_wr[x] } else { local_drop || l.told_rd[x] || l.told_wr[x] };
             if !judged[x] {
                 wit |= W_UNJUDGED_ENDPOINT;
             }
@@ -304,11 +403,11 @@ fn exec(cfg: &Cfg, render: bool) -> RunOutput {
             }
             // (1) nothing blocks forever
             if !w.task_done(x) {
-                push_viol(&mut viol, "tung.hang.task", format!("after {f:?} the system is quiescent but the connection task of side {x} never finished ({})", state(x)));
+                push_viol(&mut viol, "tung.hang.task", format!("after {f} the system is quiescent but the connection task of side {x} never finished ({})", state(x)));
             }
             let pend: Vec<String> = obs.pending().into_iter().filter(|n| side_of(n) == x).collect();
             for n in &pend {
-                push_viol(&mut viol, &format!("tung.hang.{}", kind_of(n, &obs)), format!("after {f:?} the system is quiescent but these operations of side {x} never completed: {pend:?} (connection task finished: {}; {})", w.task_done(x), state(x)));
+                push_viol(&mut viol, &format!("tung.hang.{}", kind_of(n, &obs)), format!("after {f} the system is quiescent but these operations of side {x} never completed: {pend:?} (connection task finished: {}; {})", w.task_done(x), state(x)));
             }
         }
         // (2) results are the documented ones
@@ -345,7 +444,7 @@ fn exec(cfg: &Cfg, render: bool) -> RunOutput {
         if res.iter().any(|r| matches!(r, Some(Err(_)))) {
             wit |= W_TASK_ERR;
         }
-        if matches!(f, DropMuxA | DropMuxB) && res.iter().all(|r| matches!(r, Some(Ok(())))) {
+        if local_drop && !second && res.iter().all(|r| matches!(r, Some(Ok(())))) {
             wit |= W_CLOSE_HANDSHAKE;
         }
     }
@@ -354,6 +453,9 @@ fn exec(cfg: &Cfg, render: bool) -> RunOutput {
         h.str(&format!("{e:?}"));
     }
     h.byte(fault.map_or(0xff, |f| f as u8));
+    if cfg.double {
+        h.byte(u8::from(second) | u8::from(stall_first) << 1 | u8::from(close_rx[0]) << 2 | u8::from(close_rx[1]) << 3);
+    }
     for x in 0..2 {
         // (Ok / Err only: the error text of an I/O failure is tungstenite's business)
         h.byte(match &*w.task_result[x].borrow() {
@@ -377,6 +479,7 @@ fn exec(cfg: &Cfg, render: bool) -> RunOutput {
                 .log
                 .iter()
                 .map(|s| match s {
+                    Step::Extra(1) => format!("FAULT({:?})", if xside == 0 { StallA2B } else { StallB2A }),
                     Step::Extra(_) => format!("FAULT({:?})", cfg.fault),
                     o => w.sim.describe(o),
                 })
@@ -394,17 +497,27 @@ pub fn run(args: &Args) -> Report {
     let mut cases = Vec::new();
     for cap in [0usize, 64] {
         for fault in FAULTS {
-            let cfg = Cfg { cap, fault };
+            let cfg = Cfg { cap, fault, double: false };
             cases.push(Case { try_unbounded: false, max_k: u32::MAX, label: format!("{LABEL_PREFIX}{fault:?} at any point of the lean scenario over real WebSocketStreams (A client role, B server role), byte pipes of capacity {}", if cap == 0 { "unbounded".to_string() } else { format!("{cap} bytes") }), exec: Box::new(move |r| exec(&cfg, r)) });
         }
+    }
+    // two causes: the PEER ends the connection in an orderly way (its application drops the Multiplexor, or a bare Close
+    // frame at byte level) and the outbound direction of the endpoint that receives the Close stalls, in either order, each
+    // at every point (quick: of the canonical schedule; thorough: k <= 1). 64-byte pipes: the receiving endpoint's send
+    // side really backs up
+    for fault in [DropMuxA, DropMuxB, BareCloseA, BareCloseB] {
+        let cfg = Cfg { cap: 64, fault, double: true };
+        let stall = if peer_of(fault) == 0 { StallB2A } else { StallA2B };
+        cases.push(Case { try_unbounded: false, max_k: if thorough { 1 } else { 0 }, label: format!("{LABEL_PREFIX}two faults, {fault:?} (the peer ends the connection in an orderly way) and, at any point before or after it, {stall:?} (the outbound direction of the endpoint that receives the Close goes silent); lean scenario over real WebSocketStreams (A client role, B server role), byte pipes of capacity 64 bytes"), exec: Box::new(move |r| exec(&cfg, r)) });
     }
     let plan = Plan {
         ks: if thorough { vec![0, 1, 2] } else { vec![0, 1] },
         env: 0,
-        fault: 1,
+        // (the single-fault cases offer no second fault: for them this is a budget of 1)
+        fault: 2,
         total_wall: Duration::from_secs(if thorough { 1200 } else { 45 }),
         max_execs_per_case: 20_000_000,
-        required_witnesses: W_FAULT_TAKEN | W_FAULT_WITH_BLOCKED_WRITER | W_FAULT_WITH_PENDING_OPEN | W_FAULT_WITH_PENDING_BIND | W_FAULT_WITH_DGRAM_IN_FLIGHT | W_BROKEN_PIPE | W_CLOSED_SEEN | W_EOF_WHILE_OUT_STUCK | W_EOF_WHILE_OUT_STUCK << 1 | W_RESET_WHILE_OUT_STUCK | W_RESET_WHILE_OUT_STUCK << 1 | W_TASK_ERR | W_CLOSE_HANDSHAKE | W_UNJUDGED_ENDPOINT | W_PIPE_BACKPRESSURE,
+        required_witnesses: W_FAULT_TAKEN | W_FAULT_WITH_BLOCKED_WRITER | W_FAULT_WITH_PENDING_OPEN | W_FAULT_WITH_PENDING_BIND | W_FAULT_WITH_DGRAM_IN_FLIGHT | W_BROKEN_PIPE | W_CLOSED_SEEN | W_EOF_WHILE_OUT_STUCK | W_EOF_WHILE_OUT_STUCK << 1 | W_RESET_WHILE_OUT_STUCK | W_RESET_WHILE_OUT_STUCK << 1 | W_TASK_ERR | W_CLOSE_HANDSHAKE | W_UNJUDGED_ENDPOINT | W_PIPE_BACKPRESSURE | W_CLOSE_WHILE_OUT_STUCK | W_CLOSE_WHILE_OUT_STUCK << 1,
         adaptive: thorough,
         witness_names: &[
             ("fault_injected", W_FAULT_TAKEN),
@@ -422,9 +535,11 @@ pub fn run(args: &Args) -> Report {
             ("close_handshake_completed_both_tasks_ok", W_CLOSE_HANDSHAKE),
             ("merely_stalled_endpoint_not_judged", W_UNJUDGED_ENDPOINT),
             ("writer_parked_on_full_pipe", W_PIPE_BACKPRESSURE),
+            ("client_role_close_received_while_send_side_stuck_on_stalled_full_pipe", W_CLOSE_WHILE_OUT_STUCK),
+            ("server_role_close_received_while_send_side_stuck_on_stalled_full_pipe", W_CLOSE_WHILE_OUT_STUCK << 1),
         ],
     };
-    rep.rule = "psim over REAL tungstenite: two real endpoints whose WebSocket is a real tokio_tungstenite::WebSocketStream (A client role, B server role, through the crate's adapter in ws.rs) over in-memory byte pipes (per direction: bytes in flight, explicit deliver steps, capacity unbounded / 64 bytes with partial writes). Lean scenario (stream with data in both directions, a writer blocked on credit with rwnd 2, a blocked reader, accept loops, get_datagram pending on both sides, a stream request whose Connect is unanswered, a bind request that is never answered, a datagram in flight); at EVERY scheduling point (and at quiescence) of every schedule with <= k deviations one fault of {eof(d), reset(d), stall(d) for d in a->b, b->a; eof both; reset both; eof / reset of X's inbound direction while X's outbound direction is stalled, X in A, B; drop Multiplexor A / B} is injected, then the system runs to quiescence: on every endpoint that was told that the connection is over (a read of the byte stream returned end of file or an error, a write or flush failed, or the peer's Close arrived after a local drop) the connection task has finished and no application future is pending; reads only ever return delivered prefix then 0, failed writes are BrokenPipe, failed multiplexor calls are Closed (bind: false/Closed), no panic".into();
+    rep.rule = "psim over REAL tungstenite: two real endpoints whose WebSocket is a real tokio_tungstenite::WebSocketStream (A client role, B server role, through the crate's adapter in ws.rs) over in-memory byte pipes (per direction: bytes in flight, explicit deliver steps, capacity unbounded / 64 bytes with partial writes). Lean scenario (stream with data in both directions, a writer blocked on credit with rwnd 2, a blocked reader, accept loops, get_datagram pending on both sides, a stream request whose Connect is unanswered, a bind request that is never answered, a datagram in flight); at EVERY scheduling point (and at quiescence) of every schedule with <= k deviations one fault of {eof(d), reset(d), stall(d) for d in a->b, b->a; eof both; reset both; eof / reset of X's inbound direction while X's outbound direction is stalled, X in A, B; drop Multiplexor A / B} is injected, then the system runs to quiescence: on every endpoint that was told that the connection is over (a read of the byte stream returned end of file or an error, a write or flush failed, or the peer's Close arrived after a local drop) the connection task has finished and no application future is pending; reads only ever return delivered prefix then 0, failed writes are BrokenPipe, failed multiplexor calls are Closed (bind: false/Closed), no panic. Two-fault cases (64-byte pipes; canonical schedule in the quick tier, k <= 1 thorough): the PEER ends the connection in an orderly way (drops its Multiplexor, or a bare Close frame appears on its direction at byte level) and, at any point before or after that, the outbound direction of the endpoint that receives the Close stalls; an endpoint that has read the peer's Close frame is judged by the same oracle although its own send side never drains".into();
     rep.assumptions = vec![
         "eof(d) is an orderly end of the byte stream of direction d (FIN behind the bytes already sent, a deliver step carries it), the sender's later writes fail with BrokenPipe; reset(d) discards what is buffered, the reader's next read and the sender's writes fail with ConnectionReset; stall(d) is a silent loss: nothing arrives any more and nobody is told; once the capacity is used up the sender's poll_write / poll_flush stay Pending".into(),
         "an endpoint that was told nothing (its peer just went silent) is not judged: without keepalive this is indistinguishable from a slow peer (C16's subject)".into(),
